@@ -441,19 +441,23 @@ def run_reach(prop, tier, seed, plan, sp, workdir, build, cargo_env, log):
                        "functions_instantiated": len(d["fn"]), "functions_executed": sum(1 for c in d["fn"].values() if c > 0),
                        "lines_never_executed": _ranges([n for n, c in d["lines"].items() if c == 0])[:60]}
     anchors = [a for a in sp.get("anchors", []) if a.startswith("src/")]
-    anchor_cov = {}
+    anchor_cov, not_reached = {}, []
     for a in anchors:
         pf = per_file.get(a)
         if pf is None:
             continue  # a file without executable code (or compiled out)
         anchor_cov[a] = f"{pf['lines_executed']}/{pf['lines_instrumented']}"
         if pf["lines_instrumented"] > 0 and pf["lines_executed"] == 0:
-            res["inconclusive"].append(f"reach: no line of the anchor file {a} was executed by this check's workload")
+            not_reached.append(a)
+    # the anchors of a property also name files that merely call the anchored mechanism (slice.rs and merge.rs call
+    # add(): anchors of C04) - a workload need not drive those. Reaching NONE of the anchored code is a broken workload.
+    if anchor_cov and len(not_reached) == len(anchor_cov):
+        res["inconclusive"].append(f"reach: no line of any anchor file ({', '.join(not_reached)}) was executed by this check's workload")
     res["coverage"] = {
         "what": "lines of /repo/src executed by this check's own workload (LLVM source-based coverage, cfg(test) code not compiled; "
                 "generic code is merged over all instantiations); says where the monitors looked, not that anything is verified",
         "processes": sp["shards"], "profiles_merged": len(raws),
         "lines_instrumented": tot, "lines_executed": hit,
-        "anchor_files_lines_executed": anchor_cov, "per_file": per_file, "wall_s": round(time.time() - t0, 1)}
+        "anchor_files_lines_executed": anchor_cov, "anchor_files_not_reached": not_reached, "per_file": per_file, "wall_s": round(time.time() - t0, 1)}
     log(f"  stage reach: {hit}/{tot} lines of /repo/src executed by this workload; anchors {anchor_cov}, {time.time() - t0:.1f}s")
     return res
